@@ -253,6 +253,8 @@ class SArr(SArrBase):
         kind = {"f": "f", "i": "i", "u": "i", "b": "b"}.get(k)
         if kind is None:
             raise Unsupported(f"astype({dtype})")
+        if kind == self.kind and not copy and np.dtype(dtype).name == self.dtype_name:
+            return self         # numpy: astype(copy=False) of an array that already has the dtype returns the array itself
         if kind == self.kind:
             r = self.copy()
             r.dtype_name = np.dtype(dtype).name
